@@ -1,10 +1,11 @@
 import H2V.Lemmas.ConnResetPPop
 /-
-  ConnResetP — `Evolves SRel RInv` for the operations of recv.rs that move the state machine.
+  ConnResetP — `Evolves (SRel D) RInv` for the operations of recv.rs that move the state machine.
 -/
 set_option linter.unusedSectionVars false
 namespace H2V.Lemmas.ConnResetP
 open H2V H2V.Model H2V.Model.Conn
+variable {D : Nat → Prop}
 
 set_option allowUnsafeReducibility true in
 attribute [local reducible] Streams.stream Store.getD'
@@ -12,38 +13,38 @@ attribute [local reducible] Streams.stream Store.getD'
 section
 variable {a : Store} {s : Streams}
 
-theorem recvRecvHeaders_sr (h : Evolves SRel RInv a s.store) (id : Nat) (hd : HeadersIn) :
-    Evolves SRel RInv a (s.recvRecvHeaders id hd).1.store := by
+theorem recvRecvHeaders_sr (h : Evolves (SRel D) RInv a s.store) (id : Nat) (hd : HeadersIn) :
+    Evolves (SRel D) RInv a (s.recvRecvHeaders id hd).1.store := by
   unfold Streams.recvRecvHeaders; ev
 macro_rules | `(tactic| ev_step) => `(tactic| with_reducible apply recvRecvHeaders_sr)
 
-theorem recvRecvTrailers_sr (h : Evolves SRel RInv a s.store) (id : Nat) (hd : HeadersIn) :
-    Evolves SRel RInv a (s.recvRecvTrailers id hd).1.store := by
+theorem recvRecvTrailers_sr (h : Evolves (SRel D) RInv a s.store) (id : Nat) (hd : HeadersIn) :
+    Evolves (SRel D) RInv a (s.recvRecvTrailers id hd).1.store := by
   unfold Streams.recvRecvTrailers; ev
 macro_rules | `(tactic| ev_step) => `(tactic| with_reducible apply recvRecvTrailers_sr)
 
-theorem recvRecvData_sr (h : Evolves SRel RInv a s.store) (id : Nat) (p : Bytes) (eos : Bool) (pl : Option Nat) :
-    Evolves SRel RInv a (s.recvRecvData id p eos pl).1.store := by
+theorem recvRecvData_sr (h : Evolves (SRel D) RInv a s.store) (id : Nat) (p : Bytes) (eos : Bool) (pl : Option Nat) :
+    Evolves (SRel D) RInv a (s.recvRecvData id p eos pl).1.store := by
   unfold Streams.recvRecvData; ev
 macro_rules | `(tactic| ev_step) => `(tactic| with_reducible apply recvRecvData_sr)
 
-theorem recvRecvPushPromise_sr (h : Evolves SRel RInv a s.store) (id : Nat) (hd : HeadersIn) :
-    Evolves SRel RInv a (s.recvRecvPushPromise id hd).1.store := by
+theorem recvRecvPushPromise_sr (h : Evolves (SRel D) RInv a s.store) (id : Nat) (hd : HeadersIn) :
+    Evolves (SRel D) RInv a (s.recvRecvPushPromise id hd).1.store := by
   unfold Streams.recvRecvPushPromise; ev
 macro_rules | `(tactic| ev_step) => `(tactic| with_reducible apply recvRecvPushPromise_sr)
 
-theorem recvRecvReset_sr (h : Evolves SRel RInv a s.store) (id : Nat) (r : Reason) :
-    Evolves SRel RInv a (s.recvRecvReset id r).1.store := by
+theorem recvRecvReset_sr (h : Evolves (SRel D) RInv a s.store) (id : Nat) (r : Reason) :
+    Evolves (SRel D) RInv a (s.recvRecvReset id r).1.store := by
   unfold Streams.recvRecvReset; ev
 macro_rules | `(tactic| ev_step) => `(tactic| with_reducible apply recvRecvReset_sr)
 
-theorem recvHandleError_sr (h : Evolves SRel RInv a s.store) (id : Nat) (e : PErr) :
-    Evolves SRel RInv a (s.recvHandleError id e).store := by
+theorem recvHandleError_sr (h : Evolves (SRel D) RInv a s.store) (id : Nat) (e : PErr) :
+    Evolves (SRel D) RInv a (s.recvHandleError id e).store := by
   unfold Streams.recvHandleError; ev
 macro_rules | `(tactic| ev_step) => `(tactic| with_reducible apply recvHandleError_sr)
 
-theorem recvRecvEof_sr (h : Evolves SRel RInv a s.store) (id : Nat) :
-    Evolves SRel RInv a (s.recvRecvEof id).store := by
+theorem recvRecvEof_sr (h : Evolves (SRel D) RInv a s.store) (id : Nat) :
+    Evolves (SRel D) RInv a (s.recvRecvEof id).store := by
   unfold Streams.recvRecvEof; ev
 macro_rules | `(tactic| ev_step) => `(tactic| with_reducible apply recvRecvEof_sr)
 
